@@ -62,6 +62,12 @@ static void engine_run(void) {
 	size_t main_len = tr_len, main_cap = tr_cap;
 	while ((line = plan_next_line()) != NULL) {
 		int n = plan_split(line, tok, 16);
+		if (n >= 3 && !strcmp(tok[0], "CTXFILL")) {
+			/* a context is storage of the caller's: before its first initialisation it may hold anything */
+			int c = atoi(tok[1]) % NCTX;
+			if (c > 0 && !inited[c]) memset(ctxs[c], atoi(tok[2]) & 0xFF, sizeof(ctx_t));
+			continue;
+		}
 		if (n < 3 || strcmp(tok[0], "STEP") != 0) continue;
 		int i = atoi(tok[1]) % NCTX;
 		use_ctx(i);
